@@ -71,6 +71,10 @@ def build_scn(c, seed=0, coolant=None, dz_user=None):
                              'convection_factor': c.get('cf', 1.0)},
                    'upper': {'z_lo': round(3 * L / 4, 9), 'z_hi': L, 'vf_coolant': 0.35,
                              'model': '6node', 'convection_factor': c.get('cf', 1.0)}}
+    elif st == 'multi-fine':
+        # region boundaries with seven significant decimals in metres (what any conversion from inches gives)
+        regions = {'lower': {'z_lo': 0.0, 'z_hi': round(L / 4 + 4.0e-7, 9), 'vf_coolant': 0.3},
+                   'upper': {'z_lo': round(3 * L / 4 - 4.0e-7, 9), 'z_hi': L, 'vf_coolant': 0.35}}
     elif st == 'multi-thin':
         # un-rodded regions thinner than any step at both ends: each of them is exactly one axial step
         regions = {'lower': {'z_lo': 0.0, 'z_hi': 2.0e-5, 'vf_coolant': 0.3},
@@ -176,6 +180,7 @@ def cases_sweep(tier):
                 out.append(dict(base, ducts=du, structure='multi', wall='none', planes='near', cf=cf))
             for wall in ('none', 'flow'):
                 out.append(dict(base, ducts=du, structure='multi-thin', wall=wall))
+                out.append(dict(base, ducts=du, structure='multi-fine', wall=wall))
         for st in ('multi', 'lf-simple', 'lf-6node'):
             for cf in (1.0, 0.5):
                 for wall in ('none', 'flow'):
